@@ -27,22 +27,23 @@ thread_local! {
     static BAD: RefCell<Vec<String>> = RefCell::new(vec![]);
     /// exec mode: every step that has an `impl … for Result<Array<T>, ArrayError>` is ALSO called on `Ok(array)` (the chained receiver)
     static TWIN_ON: Cell<bool> = Cell::new(false);
-    static IN_TWIN: Cell<bool> = Cell::new(false);
+    static IN_TWIN: Cell<Option<&'static str>> = Cell::new(None);
     /// records (class + shapes) of the chained twins of the current step
-    static TWIN: RefCell<Vec<String>> = RefCell::new(vec![]);
+    static TWIN: RefCell<Vec<(&'static str, String)>> = RefCell::new(vec![]);
 }
 
 /// the C01 monitor on one real array; returns its shape
 fn chk<T: ArrayElement>(a: &Array<T>) -> Vec<usize> {
     let ok = catch_unwind(AssertUnwindSafe(|| consistent(a))).unwrap_or(false);
     let shape = a.get_shape().unwrap_or_default();
-    let via = if IN_TWIN.with(|c| c.get()) { "the chained call on Ok(array) (impl … for Result<Array<T>, ArrayError>) returned an " } else { "returned an " };
+    let via = match IN_TWIN.with(|c| c.get()) { Some(how) => format!("the same call {} returned an ", how), None => "returned an ".to_string() };
     let n = a.get_elements().map(|e| e.len()).unwrap_or(usize::MAX);
     if !ok {
         BAD.with(|b| b.borrow_mut().push(format!("{}inconsistent array: shape {:?} (product {}) but {} elements; len()={:?} ndim()={:?} is_empty()={:?}",
             via, shape, shape.iter().product::<usize>(), n, a.len().ok(), a.ndim().ok(), a.is_empty().ok())));
     }
-    // the same five getters through the chained receiver `impl ArrayMeta<T> for Result<Array<T>, ArrayError>`
+    // the same five getters through the chained receiver `impl ArrayMeta<T> for Result<Array<T>, ArrayError>` (exec mode)
+    if !TWIN_ON.with(|c| c.get()) { return shape; }
     let got = catch_unwind(AssertUnwindSafe(|| {
         let r: Result<Array<T>, ArrayError> = Ok(a.clone());
         (r.len().ok(), r.ndim().ok(), r.is_empty().ok(), r.get_shape().ok(), r.get_elements().ok().map(|e| e.len()))
@@ -57,13 +58,16 @@ fn chk<T: ArrayElement>(a: &Array<T>) -> Vec<usize> {
     shape
 }
 /// run the chained twin of a step (exec mode only); its arrays are monitored like any other, its record is kept for the comparison
-fn twin_run(f: impl FnOnce() -> Out) {
+const CHAINED: &str = "on Ok(array) through impl … for Result<Array<T>, ArrayError> (the chained receiver)";
+fn twin_run(f: impl FnOnce() -> Out) { variant_run(CHAINED, f) }
+/// another way of making the same call (chained receiver, option spelled as enum / &str / String): monitored, must answer alike
+fn variant_run(how: &'static str, f: impl FnOnce() -> Out) {
     if !TWIN_ON.with(|c| c.get()) { return; }
-    IN_TWIN.with(|c| c.set(true));
+    let outer = IN_TWIN.with(|c| c.replace(Some(how)));
     let r = catch_unwind(AssertUnwindSafe(f));
-    IN_TWIN.with(|c| c.set(false));
+    IN_TWIN.with(|c| c.set(outer));
     let rec = match r { Ok(o) => record(&o), Err(_) => "P".to_string() };
-    TWIN.with(|t| t.borrow_mut().push(rec));
+    if outer.is_none() { TWIN.with(|t| t.borrow_mut().push((how, rec))); }
 }
 
 trait ToV { fn to_v(self) -> V; }
@@ -206,6 +210,12 @@ macro_rules! ctor_all { ($ty:expr, |$tt:ident| $body:expr) => { on_ty!($ty, ["i3
 macro_rules! ctor_num { ($ty:expr, |$tt:ident| $body:expr) => { on_ty!($ty, ["i32" => i32, "i64" => i64, "u8" => u8, "usize" => usize, "f64" => f64, "isize" => isize, "i8" => i8], |$tt| $body) }; }
 
 fn ty_field<'a>(args: &[&'a str]) -> &'a str { args.iter().find_map(|a| a.strip_prefix('#')).unwrap_or("i64") }
+const AS_STR: &str = "with the option spelled as &str";
+const AS_STRING: &str = "with the option spelled as String";
+const AS_ENUM: &str = "with the option spelled as the enum value";
+fn kind_enum(s: &str) -> Option<SortKind> {
+    match s.to_lowercase().as_str() { "quicksort" => Some(SortKind::Quicksort), "mergesort" => Some(SortKind::Mergesort), "heapsort" => Some(SortKind::Heapsort), "stable" => Some(SortKind::Stable), _ => None }
+}
 fn sort_kind(s: &str) -> Option<Option<String>> {
     if s == "none" { Some(None) } else { s.strip_prefix("s:").map(|x| Some(x.to_string())) }
 }
@@ -406,8 +416,10 @@ fn run_modelled(st: &[V], name: &str, a: &[&str], ty: &str) -> Option<Out> {
         "count_nonzero" => on_all!(g!(0), |x| x.count_nonzero(oisz(a[1]), obool(a[2]))),
         "argmax" => on_all!(g!(0), |x| x.argmax(oisz(a[1]), obool(a[2]))),
         "argmin" => on_all!(g!(0), |x| x.argmin(oisz(a[1]), obool(a[2]))),
-        "sort" => { let k = sort_kind(a[2])?; on_all!(g!(0), |x| x.sort(oisz(a[1]), k.clone())) }
-        "argsort" => { let k = sort_kind(a[2])?; on_all!(g!(0), |x| x.argsort(oisz(a[1]), k.clone())) }
+        "sort" => { let k = sort_kind(a[2])?; let (v, ax) = (g!(0), oisz(a[1])); let o = on_all!(v, |x| x.sort(ax, k.clone()));
+            if let Some(ks) = &k { variant_run(AS_STR, || on_all_p!(v, |x| x.sort(ax, Some(ks.as_str())))); if let Some(e) = kind_enum(ks) { variant_run(AS_ENUM, || on_all_p!(v, |x| x.sort(ax, Some(e)))); } } o }
+        "argsort" => { let k = sort_kind(a[2])?; let (v, ax) = (g!(0), oisz(a[1])); let o = on_all!(v, |x| x.argsort(ax, k.clone()));
+            if let Some(ks) = &k { variant_run(AS_STR, || on_all_p!(v, |x| x.argsort(ax, Some(ks.as_str())))); if let Some(e) = kind_enum(ks) { variant_run(AS_ENUM, || on_all_p!(v, |x| x.argsort(ax, Some(e)))); } } o }
         "unique" => on_all!(g!(0), |x| x.unique(oisz(a[1]))),
         "clip" => { let (vlo, vhi) = (g!(1), g!(2)); on_num!(g!(0), |x| match (FromV::from_v(vlo), FromV::from_v(vhi)) { (Some(lo), Some(hi)) => x.clip(Some(Array::clone(lo)), Some(Array::clone(hi))), _ => Err(ArrayError::NotImplemented) }) }
         // ---- products
@@ -417,8 +429,12 @@ fn run_modelled(st: &[V], name: &str, a: &[&str], ty: &str) -> Option<Out> {
         "matmul" => on_ops2!(g!(0), g!(1), |x, y| x.matmul(y)),
         "dot" => on_ops2!(g!(0), g!(1), |x, y| x.dot(y)),
         // ---- bits
-        "unpack_bits" => on_types!(g!(0), [U8], |x| x.unpack_bits(oisz(a[1]), oisz(a[2]), Some(a[3]))),
-        "pack_bits" => on_types!(g!(0), [U8], |x| x.pack_bits(oisz(a[1]), Some(a[2]))),
+        "unpack_bits" => { let v = g!(0); let o = on_types!(v, [U8], |x| x.unpack_bits(oisz(a[1]), oisz(a[2]), Some(a[3])));
+            variant_run(AS_STRING, || on_types_p!(v, [U8], |x| x.unpack_bits(oisz(a[1]), oisz(a[2]), Some(a[3].to_string()))));
+            if let Some(e) = match a[3] { "big" => Some(BitOrder::Big), "little" => Some(BitOrder::Little), _ => None } { variant_run(AS_ENUM, || on_types_p!(v, [U8], |x| x.unpack_bits(oisz(a[1]), oisz(a[2]), Some(e)))); } o }
+        "pack_bits" => { let v = g!(0); let o = on_types!(v, [U8], |x| x.pack_bits(oisz(a[1]), Some(a[2])));
+            variant_run(AS_STRING, || on_types_p!(v, [U8], |x| x.pack_bits(oisz(a[1]), Some(a[2].to_string()))));
+            if let Some(e) = match a[2] { "big" => Some(BitOrder::Big), "little" => Some(BitOrder::Little), _ => None } { variant_run(AS_ENUM, || on_types_p!(v, [U8], |x| x.pack_bits(oisz(a[1]), Some(e)))); } o }
         "op_neg" => on_types_p!(g!(0), [I32, I64, F64], |x| Ok::<_, ArrayError>(-x.clone())),
         "op_not" => on_types_p!(g!(0), [B], |x| Ok::<_, ArrayError>(!x.clone())),
         _ => {
@@ -480,7 +496,7 @@ dual_fn!(str_ops_on, str_ops_on_r, String, |st, name, a, x| {
             if name == "split" { fin(ArrayStringManipulate::split(x, sep, ms)) } else { fin(x.rsplit(sep, ms)) }
         }
         "replace" => { let (o, n) = match (sarg(1), sarg(2)) { (Some(o), Some(n)) => (o, n), _ => return Some(skip()) }; fin(x.replace(o, n, ousz(a[3]))) }
-        "compare" => { let y = match sarg(1) { Some(y) => y, None => return Some(skip()) }; fin(x.compare(y, a[2])) }
+        "compare" => { let y = match sarg(1) { Some(y) => y, None => return Some(skip()) }; variant_run(AS_STRING, || fin(x.compare(y, a[2].to_string()))); fin(x.compare(y, a[2])) }
         _ => {
             if !STR_BINARY.contains(&name) { return None; }
             let y = match sarg(1) { Some(y) => y, None => return Some(skip()) };
@@ -500,7 +516,7 @@ table2!(linalg_ops, linalg_ops_r, [NumericOps], |name, x, y: Option<&Array<N>>, 
     Some(match name {
         "det" => fin(x.det()), "qr" => fin(x.qr()), "eigvals" => fin(x.eigvals()), "eig" => fin(x.eig()),
         "solve" => fin(x.solve(y?)),
-        "norm" => { let ord: Option<&str> = if a[1] == "none" { None } else { Some(a[1]) }; fin(x.norm(ord, oil(a[2]), obool(a[3]))) }
+        "norm" => { let ord: Option<&str> = if a[1] == "none" { None } else { Some(a[1]) }; if ord.is_some() { variant_run(AS_STRING, || fin(x.norm(ord.map(str::to_string), oil(a[2]), obool(a[3])))); } fin(x.norm(ord, oil(a[2]), obool(a[3]))) }
         "diff" => fin(x.diff(us(a[1]), oisz(a[2]), None, None)),
         "ediff1d" => fin(x.ediff1d(None, None)),
         "unwrap_phase" => fin(x.unwrap_phase(None, oisz(a[1]), None)),
@@ -524,7 +540,7 @@ table2!(num_ops, num_ops_r, [Numeric + FromV], |name, x, st: &[V], a: &[&str]| {
         "clip2" => fin(x.clip(None, Some(other(1)?.clone()))),
         "round" | "around" => { let d = match get(st, a[1]) { Some(V::Is(d)) => d, _ => return Some(skip()) }; if name == "round" { fin(x.round(d)) } else { fin(x.around(d)) } }
         "modf" => fin(x.modf()), "divmod" => fin(x.divmod()),
-        "convolve" => fin(x.convolve(other(1)?, if a[2] == "none" { None } else { Some(a[2]) })),
+        "convolve" => { if a[2] != "none" { let o = other(1)?; variant_run(AS_STRING, || fin(x.convolve(o, Some(a[2].to_string())))); } fin(x.convolve(other(1)?, if a[2] == "none" { None } else { Some(a[2]) })) }
         _ => return None,
     })
 });
@@ -565,16 +581,16 @@ fn run_step(st: &[V], step: &str, bad: &mut Vec<String>) -> Out {
     let a: Vec<&str> = fields[1..].iter().copied().filter(|f| !f.starts_with('#') && !f.starts_with('=')).collect();
     BAD.with(|b| b.borrow_mut().clear());
     TWIN.with(|t| t.borrow_mut().clear());
-    IN_TWIN.with(|c| c.set(false));
+    IN_TWIN.with(|c| c.set(None));
     let r = catch_unwind(AssertUnwindSafe(|| match name.strip_prefix("u.") { Some(n) => run_unmodelled(st, n, &a, ty), None => run_modelled(st, name, &a, ty) }));
-    IN_TWIN.with(|c| c.set(false));
+    IN_TWIN.with(|c| c.set(None));
     BAD.with(|b| bad.extend(b.borrow_mut().drain(..)));
-    let twins: Vec<String> = TWIN.with(|t| t.borrow_mut().drain(..).collect());
+    let twins: Vec<(&'static str, String)> = TWIN.with(|t| t.borrow_mut().drain(..).collect());
     let o = match r { Ok(Some(o)) => o, Ok(None) => Out { cls: "unknown", v: V::Nil }, Err(_) => Out { cls: "panic", v: V::Nil } };
     // both receivers: the chained call on Ok(array) must answer like the plain call (outcome class and shapes)
     if o.cls == "ok" || o.cls == "err" {
         let plain = record(&o);
-        for t in twins { if t != plain { bad.push(format!("answers {} on the plain receiver but {} when called on Ok(array) through impl … for Result<Array<T>, ArrayError> (A/L = shapes, E = error, P = panic)", plain, t)); } }
+        for (how, t) in twins { if t != plain { bad.push(format!("answers {} but the same call {} answers {} (A/L = shapes, E = error, P = panic)", plain, how, t)); } }
     }
     o
 }
@@ -942,7 +958,7 @@ fn gen(tier: &str, seed: u64, out: &mut dyn FnMut(String)) {
                 if CTORS.contains(&op.as_str()) && bi >= 6 { continue; }
                 if bi >= 16 && ty == "t2" { continue; }
                 if bi >= 22 && !["u8", "i8", "bool", "i64", "f64"].contains(&ty) { continue; }
-                for rep in 0..reps {
+                for rep in 0..(if bi >= 16 { 1 } else { reps }) {
                     let mut g = G::new(0xC01 + (oi * 1000 + bi * 10 + rep) as u64, if ty == "isize" { "i64" } else { ty });
                     if !CTORS.contains(&op.as_str()) { g.fresh(ty, base); }
                     if g.emit(op) { emit_chain(&g, out); }
@@ -998,7 +1014,7 @@ fn gen(tier: &str, seed: u64, out: &mut dyn FnMut(String)) {
     }
     // (v) robustness stream: seeded random chains over shapes with zero-length axes in any position, axis lengths up to 17 and
     //     the three byte-sized element types with >= 32 elements
-    let n_wide = if thorough { 18000 } else { 6000 };
+    let n_wide = if thorough { 8000 } else { 5000 };
     let mut top = Rng::new(seed ^ 0x3A5E_C01);
     for c in 0..n_wide {
         let ty = TYPES2[top.below(TYPES2.len())];
